@@ -1,6 +1,6 @@
 #!/bin/bash
 # developer helper: run the given checks under several seeds, print one line per run
-cd /verif
+cd "$(dirname "$0")/.."
 for s in "$@"; do
   for p in $PROPS; do
     out=$(VERIF_SEED=$s ./check $p --tier ${TIER:-quick} 2>&1 | tail -2 | tr '\n' ' ')
